@@ -36,6 +36,13 @@ def tname(t):
   return 'T%d' % t
 
 
+def regenerate(ctx):
+  # Model/TempIds.v allocates ids with Model/RowIds.fill, whose tie to the source is the translated loop
+  # (GristGen.RowIds_gen): regenerate it here too, so that this check never runs against a stale translation.
+  from harness.props import c27
+  c27.regenerate(ctx)
+
+
 # ------------------------------------------------------------------------------------------------
 # generators
 
@@ -282,6 +289,15 @@ def z(n):
   return core.zlit(n)
 
 
+def zl(ns):
+  # empty list literals carry their type: the first case of a shard fixes the type of the whole list
+  return core.zlist(ns) if ns else '(@nil Z)'
+
+
+def tl(items, ty):
+  return core.coq_list(items) if items else '(@nil %s)' % ty
+
+
 def refval_lit(v, raw=False):
   """A Ref cell (raw=False: as stored/converted; input None means 0)."""
   if v is None:
@@ -299,39 +315,39 @@ def listval_lit(v):
   if isinstance(v, list):
     if not all(isinstance(x, int) and not isinstance(x, bool) for x in v):
       raise core.TieBroken('unexpected RefList cell %r' % (v,))
-    return '(LList %s)' % core.zlist(v)
+    return '(LList %s)' % zl(v)
   if isinstance(v, str):
     return '(LOther %s)' % z(TXT.index(v) + 1 if v in TXT else 99)
   raise core.TieBroken('unexpected RefList cell %r' % (v,))
 
 
 def doc_lit(doc):
-  return core.coq_list(['(%s, %s)' % (z(t), core.coq_list(
-    ['(mkrow %s %s %s)' % (z(i), refval_lit(r), listval_lit(l)) for (i, r, l) in doc[t]])) for t in range(NT)])
+  return core.coq_list(['(%s, %s)' % (z(t), tl(
+    ['(mkrow %s %s %s)' % (z(i), refval_lit(r), listval_lit(l)) for (i, r, l) in doc[t]], 'row')) for t in range(NT)])
 
 
 def schema_lit(sch):
   return core.coq_list(['(%s, (%s, %s))' % (z(t), z(sch[t][0]), z(sch[t][1])) for t in range(NT)])
 
 
-def opt_list(vs, f):
-  return 'None' if vs is None else '(Some %s)' % core.coq_list([f(v) for v in vs])
+def opt_list(vs, f, ty):
+  return 'None' if vs is None else '(Some %s)' % tl([f(v) for v in vs], ty)
 
 
 def action_lit(a):
   if a['op'] == 'add':
-    return '(AAdd %s %s %s %s)' % (z(a['t']), core.coq_list([core.optlit(x, z) for x in a['ids']]),
-                                   opt_list(a['R'], refval_lit), opt_list(a['L'], listval_lit))
+    return '(AAdd %s %s %s %s)' % (z(a['t']), tl([core.optlit(x, z) for x in a['ids']], '(option Z)'),
+                                   opt_list(a['R'], refval_lit, 'refval'), opt_list(a['L'], listval_lit, 'reflistval'))
   if a['op'] == 'update':
-    return '(AUpdate %s %s %s %s)' % (z(a['t']), core.zlist(a['ids']),
-                                      opt_list(a['R'], refval_lit), opt_list(a['L'], listval_lit))
-  return '(ARemove %s %s)' % (z(a['t']), core.zlist(a['ids']))
+    return '(AUpdate %s %s %s %s)' % (z(a['t']), zl(a['ids']),
+                                      opt_list(a['R'], refval_lit, 'refval'), opt_list(a['L'], listval_lit, 'reflistval'))
+  return '(ARemove %s %s)' % (z(a['t']), zl(a['ids']))
 
 
 def result_lit(res):
   if res['outcome'] != 'ok':
     return '(PyErr %s)' % EXC[res['outcome']]
-  rets = core.coq_list(['RetNone' if r is None else '(RetIds %s)' % core.zlist(r) for r in res['rets']])
+  rets = core.coq_list(['RetNone' if r is None else '(RetIds %s)' % zl(r) for r in res['rets']])
   return '(PyOk (%s, %s))' % (doc_lit(res['tables']), rets)
 
 
@@ -406,9 +422,30 @@ def correspond(ctx):
     mine = [(t, f) for (tb, t, f) in ups if tb == qt]
     raw.append((ups, qt, ids, got))
     coq.append('(%s, %s, %s)' % (
-      core.coq_list(['(%s, %s)' % (core.coq_list([core.optlit(x, z) for x in t]), core.zlist(f)) for t, f in mine]),
-      core.zlist(ids), core.zlist(got)))
+      tl(['(%s, %s)' % (tl([core.optlit(x, z) for x in t], '(option Z)'), zl(f)) for t, f in mine],
+         '(list (option Z) * list Z)'),
+      zl(ids), zl(got)))
     ctx.bump('map-cases')
+  if ctx.tier == 'thorough':
+    import itertools
+    alpha = [None, 0, -1, -2, 3]
+    for n1 in range(0, 4):
+      for t1 in itertools.product(alpha, repeat=n1):
+        for t2 in ([], [-1], [-2, -1], [None, -2]):
+          summ = action_summary.ActionSummary()
+          ups = [('X', list(t1), [11, 12, 13][:n1]), ('X', list(t2), [21, 22][:len(t2)])]
+          for tb, t, f in ups:
+            summ.update_new_rows_map(tb, list(t), list(f))
+          ids = [-1, -2, -3, 0, 3]
+          got = summ.translate_new_row_ids('X', list(ids))
+          raw.append((ups, 'X', ids, got))
+          coq.append('(%s, %s, %s)' % (
+            tl(['(%s, %s)' % (tl([core.optlit(x, z) for x in t], '(option Z)'), zl(f)) for _tb, t, f in ups],
+               '(list (option Z) * list Z)'), zl(ids), zl(got)))
+          ctx.bump('map-cases-exhaustive')
+    ctx.extra['exhaustive'] = True
+    ctx.extra['exhaustive_space'] = ('new-rows map: every request of length <= 3 over {None,0,-1,-2,3} followed by each of '
+                                     '4 second requests, translated ids {-1,-2,-3,0,3}')
   bad = ctx.run_cases('maps', ['Grist.Lib.PyPrelude', 'Grist.Model.TempIds'],
                       'fun c => py_list_eqb Z.eqb (translate (fold_left (fun tm u => map_update tm (fst u) (snd u)) '
                       '(fst (fst c)) []) (snd (fst c))) (snd c)', coq, shard=2000)
@@ -610,4 +647,3 @@ LEVEL_TEXT = ('Kernel-checked: after update_new_rows_map a temporary id translat
 LEVEL_NOTE = ('Hand-written model (Model/TempIds.v) tied to the code by differential bundles on the real engine and direct '
               'calls of ActionSummary each run; allocation uses Model/RowIds.fill (translated loop, C27). "No trace" after '
               'a rejected bundle is the engine rollback (C04), observed on the implementation, not modelled.')
-DISABLED = True
